@@ -125,3 +125,19 @@ package v120
 //@   invariant forall i: int :: {vestingPoolsP.VestingPools[i]} 0 <= i && i < len(vestingPoolsP.VestingPools) ==> poolAmountsAsStored(vestingPoolsP.VestingPools[i], i)
 //@ pred poolAmountsAsStored(p, i) = p != nil && p.Name == $pName[vOwner()][i] && !p.InitiallyLocked.IsNil() && p.InitiallyLocked == $pIL[vOwner()][i]
 //@   && !p.Withdrawn.IsNil() && p.Withdrawn == $pW[vOwner()][i] && !p.Sent.IsNil() && p.Sent == $pS[vOwner()][i]
+
+//@ // ---- C16: the schedule shift of the four listed accounts keeps their amounts ----
+//@ func upgradeVestingAccounnt(ctx, appKeepers, address) (err)
+//@   modifies $accTag, $accNum, $accSeq, $accPub, $accOV, $accDF, $accDV, $accStart, $accEnd
+//@   ensures let a = fromBech32(address) in otherAccountsUnchanged(a)
+//@     && $accTag[a] == old($accTag[a]) && $accOV[a] == old($accOV[a]) && $accDF[a] == old($accDF[a]) && $accDV[a] == old($accDV[a])
+//@     && $accNum[a] == old($accNum[a]) && $accSeq[a] == old($accSeq[a]) && $accPub[a] == old($accPub[a])
+//@   ensures $bal == old($bal) && $supply == old($supply)
+//@   // the one-year shift of start and end is the purpose of the upgrade (C09 exempts it)
+//@   exempt C09
+//@   prop C16
+//@ func ModifyVestingAccountsState(ctx, appKeepers) (err)
+//@   modifies $accTag, $accNum, $accSeq, $accPub, $accOV, $accDF, $accDV, $accStart, $accEnd
+//@   ensures $accOV == old($accOV) && $accDF == old($accDF) && $accDV == old($accDV) && $accTag == old($accTag) && $bal == old($bal) && $supply == old($supply)
+//@   exempt C09
+//@   prop C16
